@@ -221,6 +221,8 @@ def check_matrix(sname, S, target, h, tier, res):
                 y0 = np.linspace(1.0, -1.0, n)
                 u0 = np.array([1.0, -0.5])[: B.shape[1]]
                 u1 = np.array([0.25, 2.0])[: B.shape[1]]
+                if np.shape(Pg) != Pw.shape or np.shape(Qg) != Qw.shape or np.shape(Eg) != E.shape:
+                    continue  # already reported by the shape comparison above
                 got = Eg @ y0 + Pg @ u0 + Qg @ u1
                 want = E @ y0 + Pw @ u0 + Qw @ u1
                 sc = max(np.abs(E @ y0).max(), np.abs(Pw).max() * 2, 1e-300)
@@ -330,8 +332,51 @@ def check_ss(sysname, h, method, prewarp, res):
 
 
 # ------------------------------------------------------------------ driver
+def check_ss_history(sysname, res, maxlen):
+    """K2 over one SSModel instance: EVERY sequence of up to `maxlen` c2d calls over (method, h) on one object;
+    every result must equal the same call on a fresh object, and the object's own matrices must not change"""
+    from pyyeti.ssmodel import SSModel
+
+    out = []
+    A, B, C, D = ss_systems()[sysname]
+    menu = [(m, h) for m in ("zoh", "zoha", "foh", "tustin") for h in (0.05, 0.3)]
+    fresh = {}
+    for ev in menu:
+        Sd = SSModel(A.copy(), B.copy(), C.copy(), D.copy()).c2d(ev[1], method=ev[0])
+        fresh[ev] = [np.array(x) for x in (Sd.A, Sd.B, Sd.C, Sd.D)]
+    for n in range(1, maxlen + 1):
+        for seq in itertools.product(range(len(menu)), repeat=n):
+            S = SSModel(A.copy(), B.copy(), C.copy(), D.copy())
+            kept = []
+            res.traces += 1
+            for step, k in enumerate(seq):
+                ev = menu[k]
+                Sd = S.c2d(ev[1], method=ev[0])
+                res.transitions += 1
+                kept.append((ev, Sd))
+                bad = [nm for nm, X, Y in zip("ABCD", (Sd.A, Sd.B, Sd.C, Sd.D), fresh[ev]) if not np.array_equal(np.asarray(X), Y)]
+                if bad:
+                    out.append(("ss-hist", "call %d of the history %s on one SSModel object: c2d(%g, %r) returns a different %s than the same call on a fresh object" % (step + 1, [menu[j] for j in seq], ev[1], ev[0], "/".join(bad)), list(seq)))
+                    break
+                if not (np.array_equal(S.A, A) and np.array_equal(S.B, B) and np.array_equal(S.C, C) and np.array_equal(S.D, D)):
+                    out.append(("ss-hist", "c2d modified the continuous model (history %s)" % [menu[j] for j in seq], list(seq)))
+                    break
+            else:
+                # results returned earlier in the history are still intact at its end
+                for ev, Sd in kept:
+                    if any(not np.array_equal(np.asarray(X), Y) for X, Y in zip((Sd.A, Sd.B, Sd.C, Sd.D), fresh[ev])):
+                        out.append(("ss-hist", "a discrete model returned earlier in the history %s was changed by a later call" % [menu[j] for j in seq], list(seq)))
+                        break
+            if len(out) > 5:
+                return out
+    res.states += len(menu) ** maxlen
+    return out
+
+
 def shards(tier, seed):
     out = []
+    for sysname in ("osc2", "mimo3", "first1"):
+        out.append(dict(part="ss-hist", sys=sysname, maxlen=2 if tier == "quick" else 3, tier=tier))
     for sname in structures():
         for target in norms(tier):
             out.append(dict(part="mat", s=sname, target=target, tier=tier))
@@ -396,6 +441,11 @@ def run_shard(sh):
                 res.viol({"part": "mat", "s": sh["s"], "target": sh["target"], "h": h, "tier": tier, "fn": tag, "singular_big": bool(sb)},
                          msg, kind=("SB-" if sb else "") + tag.split("(")[0] + "-" + msg.split(":")[-2].strip()[:20] if ":" in msg else tag)
         res.sample({"part": "mat", "structure": sh["s"], "norm_Ah": sh["target"], "h": h, "signature": sig})
+    elif sh["part"] == "ss-hist":
+        for tag, msg, seq in check_ss_history(sh["sys"], res, sh["maxlen"]):
+            res.viol({"part": "ss-hist", "sys": sh["sys"], "maxlen": sh["maxlen"], "seq": seq}, msg, kind="ss-hist-" + msg.split(":")[-1][:30])
+        res.ev("ss-history/%s" % sh["sys"], n=0)
+        res.sample(dict(sh))
     else:
         for sysname, method in itertools.product(ss_systems(), ("zoh", "zoha", "foh", "tustin")):
             for h in ([0.05, 0.3] if tier == "quick" else [0.01, 0.05, 0.3, 0.9]):
@@ -415,4 +465,6 @@ def replay(case):
     if case["part"] == "mat":
         out, _, _, _ = check_matrix(case["s"], structures()[case["s"]], case["target"], case["h"], case["tier"], res)
         return [m for t, m in out if t == case.get("fn", t)] or [m for t, m in out]
+    if case["part"] == "ss-hist":
+        return [m for t, m, seq in check_ss_history(case["sys"], res, case["maxlen"]) if seq == case.get("seq", seq)]
     return [m for t, m in check_ss(case["sys"], case["h"], case["method"], case["prewarp"], res)]
